@@ -90,6 +90,31 @@ Theorem C18_all_or_nothing_refuted_4 : exists i, leftover_at i XPanic.
 Proof. exact all_or_nothing_refuted_4. Qed.
 Print Assumptions C18_all_or_nothing_refuted_4.
 
+(* (e) helm: ConfirmDir inside copyChartHome fails (corpus/C18/helm-chart-home.json, fallible
+   operation 23): log.Panicf, /new with a partial copy stays *)
+Theorem C18_all_or_nothing_refuted_5 :
+  fs_wf ex2_fs /\
+  exists_path ex2_fs ex_nd = false /\
+  snd (ex2_run (Some 23)) = OExn XPanic /\
+  (forall e, In e (w_trace (fst (ex2_run (Some 23)))) -> ev_op e = ORemoveAll -> ev_ok e = true) /\
+  exists_path (w_fs (fst (ex2_run (Some 23)))) ex_nd = true.
+Proof. exact leftover_5. Qed.
+Print Assumptions C18_all_or_nothing_refuted_5.
+
+(* "produces a copy whose build output is identical" is REFUTED on the faithful model without any
+   fault (corpus/C18/helm-values-inside-home.json): helmCharts[0].valuesFile lies inside the local
+   chart home; it is localized first, so newDir/t/charts exists when copyChartHome tests
+   `!Exists(dst)` and the chart home is never copied.  localize reports success; Chart.yaml and the
+   templates are missing from the destination. *)
+Theorem C18_equivalent_refuted :
+  fs_wf ex3_fs /\
+  snd ex3_run = OOk "/new" /\
+  lookup ["s"; "t"; "charts"; "app"; "Chart.yaml"] ex3_fs = Some (EFile (CRaw 1)) /\
+  lookup ["new"; "t"; "charts"; "app"; "values.yaml"] (w_fs (fst ex3_run)) = Some (EFile (CRaw 4)) /\
+  lookup ["new"; "t"; "charts"; "app"; "Chart.yaml"] (w_fs (fst ex3_run)) = None.
+Proof. exact incomplete_copy_witness. Qed.
+Print Assumptions C18_equivalent_refuted.
+
 Theorem C18_all_or_nothing_refuted : ~ all_or_nothing_law.
 Proof. exact all_or_nothing_law_false. Qed.
 Print Assumptions C18_all_or_nothing_refuted.
